@@ -31,9 +31,9 @@ def constraint(alias: str, cls: type, merge: Callable[[T, T], T]) -> Any:
 
 
 def merge_mult_of(m1: Number, m2: Number) -> Number:
-    if not isinstance(m1, int) and not isinstance(m2, int):
+    if not isinstance(m1, int) or not isinstance(m2, int):
         raise TypeError("multipleOf merging is only supported with integers")
-    return m1 * m2 / gcd(m1, m2)  # type: ignore
+    return m1 * m2 // gcd(m1, m2)
 
 
 def merge_pattern(p1: Pattern, p2: Pattern) -> Pattern:
